@@ -4,16 +4,25 @@
   Over an arbitrary linearly ordered field `K`; tables of any length ≥ 2, any scaling points,
   any saturation history.  Table lookup = `PiecewiseLinearTwoPhaseMaterial` (own search code,
   constant extension), whose segment formula is the one of C14's `Tabulated1DFunction`, so the
-  per-segment lemmas of C14 are instantiated.  Killough (kr models 2–4), WAG and capillary
-  pressure hysteresis, family I/II conversion and the three-phase combination are not covered
-  by theorems (see design.d/C15.md).
+  per-segment lemmas of C14 are instantiated.
+
+  Second round (deck level, `Model/SatDeck.lean`): the table scanners of
+  SatfuncPropertyInitializers (critical saturations), the override of the table end-points by
+  the per-cell arrays, `EclEpsScalingPoints::init`, family I / family II effective tables incl.
+  the conditional reversal of `PiecewiseLinearTwoPhaseMaterialParams::finalize`, the three-phase
+  combination of `EclDefaultMaterial`, descending tables, three-point inverse and monotonicity,
+  scanning-curve monotonicity, Killough's non-wetting model (`_partial`).  WAG, capillary
+  pressure hysteresis, Killough for the wetting phase, Stone 1/2 and the LET / gas-water
+  families are not covered by theorems (see design.d/C15.md).
 -/
 import Mathlib.Tactic.NormNum
 import Mathlib.Algebra.Order.Field.Rat
 import OpmVerif.Proofs.Satfunc
+import OpmVerif.Proofs.Satfunc3
+import OpmVerif.Proofs.SatDeck
 
 namespace OpmVerif.Props.C15
-open OpmVerif.Tab1D OpmVerif.Eps OpmVerif.Hyst
+open OpmVerif.Tab1D OpmVerif.Eps OpmVerif.Hyst OpmVerif.SatDeck
 
 variable {K : Type} [Field K] [LinearOrder K] [IsStrictOrderedRing K]
 
@@ -145,6 +154,246 @@ theorem carlson_identity (f fInv : K → K) (start : K) (h : List K)
     krn ⟨f, f, fInv⟩ (run ⟨f, f, fInv⟩ (init ⟨f, f, fInv⟩ start) h) sw = f sw :=
   carlson_identity_history f fInv start h hinv sw
 
+
+/-! ## Second round: descending tables, family I = family II on the table level -/
+
+/-- A descending table (family I gas-oil tables are stored against `So = 1 - Swco - Sg`) returns
+every tabulated value at its node … -/
+theorem table_descending_node {xs ys : List K} (hs : StrictDec xs) (hn : 2 ≤ xs.length) (hl : ys.length = xs.length)
+    (k : Nat) (hk : k < xs.length) : plDesc xs ys (nth xs k) = nth ys k :=
+  plDesc_node hs hn hl k hk
+
+/-- … brackets in between, and is constant outside. -/
+theorem table_descending_between {xs : List K} (ys : List K) (hs : StrictDec xs) (hn : 2 ≤ xs.length) (x : K)
+    (h0 : x < nth xs 0) (h1 : nth xs (xs.length - 1) < x) :
+    ∃ i, i + 1 < xs.length ∧ nth xs (i + 1) < x ∧ x ≤ nth xs i ∧
+      min (nth ys i) (nth ys (i + 1)) ≤ plDesc xs ys x ∧ plDesc xs ys x ≤ max (nth ys i) (nth ys (i + 1)) :=
+  plDesc_between ys hs hn x h0 h1
+
+/-- **family_equiv** (table level): a table and the same samples in the opposite order define
+the same function — ascending and descending search + evaluation code agree everywhere. -/
+theorem family_equiv_reverse {xs ys : List K} (hs : StrictInc xs) (hn : 2 ≤ xs.length)
+    (hl : ys.length = xs.length) (x : K) : plEval xs.reverse ys.reverse x = plEval xs ys x :=
+  plEval_reverse hs hn hl x
+
+/-- **family_equiv** under the `So = 1 − Sw` re-indexing: the SOF3/SOF2 table of a curve, converted
+back by the manager, is the SWOF `krow(Sw)` function. -/
+theorem family_equiv_so {sw krow : List K} (hs : StrictInc sw) (hn : 2 ≤ sw.length)
+    (hl : krow.length = sw.length) (so kro : List K)
+    (hso : so = (sw.map (fun s => 1 - s)).reverse) (hkro : kro = krow.reverse) (x : K) :
+    plEval (so.map (fun s => 1 - s)) kro x = plEval sw krow x :=
+  Eps.family_equiv_so hs hn hl so kro hso hkro x
+
+/-- **family_equiv** under the `So = (1 − Swco) − Sg` re-indexing (gas-oil system). -/
+theorem family_equiv_sg {sg krog : List K} (c : K) (hs : StrictInc sg) (hn : 2 ≤ sg.length)
+    (hl : krog.length = sg.length) (so1 so2 k2 : List K)
+    (h1 : so1 = sg.map (fun g => c - g)) (h2 : so2 = so1.reverse) (hk : k2 = krog.reverse) (x : K) :
+    plEval so2 k2 x = plEval so1 krog x :=
+  Eps.family_equiv_sg c hs hn hl so1 so2 k2 h1 h2 hk x
+
+/-- Inserting an interpolated node (family II's SOF3 lists both oil relperms on the union of the
+two node sets) does not change the function. -/
+theorem table_refine_invariant {xs ys : List K} (hs : StrictInc xs) (hl : ys.length = xs.length)
+    (i : Nat) (hi : i + 1 < xs.length) (a : K) (h1 : nth xs i < a) (h2 : a < nth xs (i + 1))
+    (xs' ys' : List K) (hxs' : xs' = xs.take (i + 1) ++ a :: xs.drop (i + 1))
+    (hys' : ys' = ys.take (i + 1) ++ evalSeg xs ys i a :: ys.drop (i + 1)) (x : K) :
+    plAsc xs' ys' x = plAsc xs ys x :=
+  plAsc_refine hs hl i hi a h1 h2 xs' ys' hxs' hys' x
+
+/-- `PiecewiseLinearTwoPhaseMaterialParams::finalize()` reverts a descending curve only when its
+first saturation exceeds its last *value*; either way the function is unchanged. -/
+theorem finalize_invariant {xs ys : List K} (h : StrictInc xs ∨ StrictDec xs) (hn : 2 ≤ xs.length)
+    (hl : ys.length = xs.length) (x : K) :
+    plEval (finalizeCurve xs ys).1 (finalizeCurve xs ys).2 x = plEval xs ys x :=
+  finalizeCurve_eval h hn hl x
+
+/-! ## Second round: three-point scaling -/
+
+/-- The three-point map is monotone over the whole axis. -/
+theorem threepoint_monotone (u sc : Pts K) (h01 : sc.p0 < sc.p1) (h12 : sc.p1 < sc.p2)
+    (u01 : u.p0 ≤ u.p1) (u12 : u.p1 ≤ u.p2) {s s' : K} (h : s ≤ s') : s2uThree s u sc ≤ s2uThree s' u sc :=
+  Eps.threepoint_monotone u sc h01 h12 u01 u12 h
+
+/-- `unscaledToScaledSat ∘ scaledToUnscaledSat = id` on `[sL, sU]` and vice versa on `[uL, uU]`,
+three-point scaling. -/
+theorem unscaled_scaled_inverse_threepoint (u sc : Pts K) (h01 : sc.p0 < sc.p1) (h12 : sc.p1 < sc.p2)
+    (u01 : u.p0 < u.p1) (u12 : u.p1 < u.p2) :
+    (∀ s, sc.p0 ≤ s → s ≤ sc.p2 → u2sThree (s2uThree s u sc) u sc = s) ∧
+    (∀ x, u.p0 ≤ x → x ≤ u.p2 → s2uThree (u2sThree x u sc) u sc = x) :=
+  threepoint_inverse u sc h01 h12 u01 u12
+
+/-! ## Second round: table-derived end-points (SatfuncPropertyInitializers) -/
+
+/-- Loop invariant of the `std::lower_bound` the scanners are written with. -/
+theorem scanner_search_invariant (p : K → Bool) (xs : List K) (hp : Partitioned p xs) :
+    critIndex p xs ≤ xs.length ∧ (∀ i, i < critIndex p xs → p (nth xs i) = true) ∧
+    (∀ j, critIndex p xs ≤ j → j < xs.length → p (nth xs j) = false) :=
+  critIndex_spec p xs hp
+
+/-- The critical saturation of an increasing relperm column (SWCR, SGCR, family II's SOWCR and
+SOGCR) is the table saturation of the last sample with `kr ≤ TOLCRIT`. -/
+theorem critical_increasing {sat kr : List K} (tol : K) (hm : MonoInc kr) (hn : 0 < kr.length)
+    (h0 : nth kr 0 ≤ tol) :
+    ∃ k, k < kr.length ∧ critInc sat kr tol = nth sat k ∧ nth kr k ≤ tol ∧
+      (∀ i, i ≤ k → nth kr i ≤ tol) ∧ (∀ j, k < j → j < kr.length → tol < nth kr j) :=
+  critInc_last tol hm hn h0
+
+/-- The critical saturation of a decreasing relperm column (family I's oil columns) is the table
+saturation of the first sample with `kr ≤ TOLCRIT`. -/
+theorem critical_decreasing {sat kr : List K} (tol : K) (hm : MonoDec kr) (hn : 0 < kr.length)
+    (hz : nth kr (kr.length - 1) ≤ tol) :
+    ∃ k, k < kr.length ∧ critDec sat kr tol = nth sat k ∧ nth kr k ≤ tol ∧
+      (∀ i, i < k → tol < nth kr i) ∧ (∀ j, k ≤ j → j < kr.length → nth kr j ≤ tol) :=
+  critDec_first tol hm hn hz
+
+/-- Both keyword families find the same critical oil saturation. -/
+theorem family_equiv_critical (f : K → K) {sat kr : List K} (tol : K) (hm : MonoDec kr) (hn : 0 < kr.length)
+    (hl : sat.length = kr.length) (hz : nth kr (kr.length - 1) ≤ tol) :
+    critInc (sat.map f).reverse kr.reverse tol = f (critDec sat kr tol) :=
+  critInc_reverse f tol hm hn hl hz
+
+/-- **family_equiv**, deck level, end-points: the family II tables of the same curves yield the
+same unscaled end-points (all eight saturations, both maximum capillary pressures, the maximum
+relperms, KRWR and KRGR). -/
+theorem family_equiv_endpoints (a : Fam1 K) (tol : K) (hsh : Shared a)
+    (hw : MonoDec a.krow) (hg : MonoDec a.krog) (hnw : 0 < a.sw.length)
+    (hlw : a.krow.length = a.sw.length) (hlg : a.krog.length = a.sg.length)
+    (hzw : nth a.krow (a.krow.length - 1) ≤ tol) (hzg : nth a.krog (a.krog.length - 1) ≤ tol) :
+    let i1 := unscaledInfo1 a tol
+    let i2 := unscaledInfo2 (toFam2 a) tol
+    i2.Swl = i1.Swl ∧ i2.Sgl = i1.Sgl ∧ i2.Swcr = i1.Swcr ∧ i2.Sgcr = i1.Sgcr ∧
+    i2.Sowcr = i1.Sowcr ∧ i2.Sogcr = i1.Sogcr ∧ i2.Swu = i1.Swu ∧ i2.Sgu = i1.Sgu ∧
+    i2.maxPcow = i1.maxPcow ∧ i2.maxPcgo = i1.maxPcgo ∧ i2.maxKrw = i1.maxKrw ∧ i2.maxKrg = i1.maxKrg ∧
+    i2.maxKrow = i1.maxKrow ∧ i2.Krwr = i1.Krwr ∧ i2.Krgr = i1.Krgr :=
+  SatDeck.family_equiv_endpoints a tol hsh hw hg hnw hlw hlg hzw hzg
+
+/-- **family_equiv**, deck level, effective tables: all six unscaled curves the manager builds
+from the family II tables are the same functions as those built from family I (after
+TOLCRIT normalisation and `finalize()`). -/
+theorem family_equiv (a : Fam1 K) (tol swco : K) (hsh : Shared a)
+    (hs : StrictInc a.sw) (hn : 2 ≤ a.sw.length) (hlw : a.krow.length = a.sw.length)
+    (hsg : StrictInc a.sg) (hlg : a.krog.length = a.sg.length) (x : K) :
+    (effOW (.f2 (toFam2 a)) tol).krnAt x = (effOW (.f1 a) tol).krnAt x ∧
+    (effOW (.f2 (toFam2 a)) tol).krwAt x = (effOW (.f1 a) tol).krwAt x ∧
+    (effOW (.f2 (toFam2 a)) tol).pcnw x = (effOW (.f1 a) tol).pcnw x ∧
+    (effGO (.f2 (toFam2 a)) tol (nth a.sw 0)).krwAt x = (effGO (.f1 a) tol (nth a.sw 0)).krwAt x ∧
+    (effGO (.f2 (toFam2 a)) tol swco).krnAt x = (effGO (.f1 a) tol swco).krnAt x ∧
+    (effGO (.f2 (toFam2 a)) tol swco).pcnw x = (effGO (.f1 a) tol swco).pcnw x :=
+  SatDeck.family_equiv a tol swco hsh hs hn hlw hsg hlg x
+
+/-- TOLCRIT normalisation keeps a relperm column monotone. -/
+theorem normalize_monotone (tol : K) (ht : 0 ≤ tol) {kr : List K} (hm : MonoInc kr) : MonoInc (normalize tol kr) :=
+  normalize_mono tol ht hm
+
+/-! ## Second round: the cell's end-points and the three-phase combination -/
+
+/-- Without end-point arrays in the deck the cell's end-points are the table's. -/
+theorem deck_endpoint_default (u : Info K) (mask : List Bool) (arr : List K) (h : ∀ k, mask.getD k false = false) :
+    scaledInfo u mask arr = u :=
+  scaledInfo_none u mask arr h
+
+/-- Scaled end-points map onto table end-points, in terms of the deck quantities
+(SWCR→table SWCR, SWU→table SWU; SWL/SWU for Pc; SGU/SGCR for the gas relperm). -/
+theorem deck_twopoint_endpoints (u s : Info K) (hw : s.Swcr ≠ s.Swu) (hp : s.Swl ≠ s.Swu)
+    (hg : 1 - s.Swl - s.Sgu ≠ 1 - s.Swl - s.Sgcr) :
+    s2uTwo s.Swcr (pointsOW u).satKrw (pointsOW s).satKrw = u.Swcr ∧
+    s2uTwo s.Swu (pointsOW u).satKrw (pointsOW s).satKrw = u.Swu ∧
+    s2uTwo s.Swl (pointsOW u).satPc (pointsOW s).satPc = u.Swl ∧
+    s2uTwo s.Swu (pointsOW u).satPc (pointsOW s).satPc = u.Swu ∧
+    s2uTwo (1 - s.Swl - s.Sgu) (pointsGO u).satKrn (pointsGO s).satKrn = 1 - u.Swl - u.Sgu ∧
+    s2uTwo (1 - s.Swl - s.Sgcr) (pointsGO u).satKrn (pointsGO s).satKrn = 1 - u.Swl - u.Sgcr :=
+  SatDeck.deck_twopoint_endpoints u s hw hp hg
+
+/-- Identity scaling at deck level (water). -/
+theorem deck_identity_krw (c : Config) (t : PLParams K) (u s : Info K) (h : s = u) (sw : K)
+    (h01 : u.Swcr < 1 - u.Sowcr - u.Sgl) (h12 : 1 - u.Sowcr - u.Sgl < u.Swu)
+    (hlo : u.Swcr ≤ sw) (hhi : sw ≤ u.Swu) (h0 : u.Krwr ≠ 0) (h1 : u.Krwr < u.maxKrw) (hm : u.maxKrw ≠ 0) :
+    epsKrw c t (pointsOW u) (pointsOW s) sw = t.krwAt sw :=
+  SatDeck.deck_identity_krw c t u s h sw h01 h12 hlo hhi h0 h1 hm
+
+/-- Identity scaling at deck level (gas; argument `x = 1 - Swl - Sg`). -/
+theorem deck_identity_krg (c : Config) (t : PLParams K) (u s : Info K) (h : s = u) (x : K)
+    (h01 : 1 - u.Swl - u.Sgu < u.Sogcr) (h12 : u.Sogcr < 1 - u.Swl - u.Sgcr)
+    (hlo : 1 - u.Swl - u.Sgu ≤ x) (hhi : x ≤ 1 - u.Swl - u.Sgcr) (h0 : u.Krgr ≠ 0) (h1 : u.Krgr < u.maxKrg) (hm : u.maxKrg ≠ 0) :
+    epsKrn c t (pointsGO u) (pointsGO s) x = t.krnAt x :=
+  SatDeck.deck_identity_krg c t u s h x h01 h12 hlo hhi h0 h1 hm
+
+/-- The three-phase oil relperm of `EclDefaultMaterial` lies between the two two-phase oil
+relperms (all three branches: regular, regularised near `Sw + Sg = Swco`, blend). -/
+theorem threephase_oil_range (k : Consts K) (hk : 0 < k.eps) (h2 : k.two = 2) (swco : K) (krnOW krwGO : K → K)
+    (sw sg : K) (hg : 0 ≤ sg) :
+    min (krnOW (sg + maxA swco sw)) (krwGO (1 - (sg + maxA swco sw))) ≤ defaultKrn k swco krnOW krwGO sw sg ∧
+    defaultKrn k swco krnOW krwGO sw sg ≤ max (krnOW (sg + maxA swco sw)) (krwGO (1 - (sg + maxA swco sw))) :=
+  defaultKrn_between k hk h2 swco krnOW krwGO sw sg hg
+
+/-- … and reduces to the oil-water curve without gas, to the gas-oil curve at connate water. -/
+theorem threephase_oil_limits (k : Consts K) (hk : 0 < k.eps) (swco : K) (krnOW krwGO : K → K) :
+    (∀ sw, k.eps ≤ sw - swco → defaultKrn k swco krnOW krwGO sw 0 = krnOW sw) ∧
+    (∀ sw sg, sw ≤ swco → k.eps ≤ sg → defaultKrn k swco krnOW krwGO sw sg = krwGO (1 - (sg + swco))) :=
+  ⟨fun sw h => defaultKrn_oil_water k swco krnOW krwGO sw h hk,
+   fun sw sg h1 h2 => defaultKrn_gas_oil k swco krnOW krwGO sw sg h1 h2 hk⟩
+
+/-- `updateHysteresis` of a cell: both reversal saturations are running minima of `1 − So` and
+`1 − Swl − Sg` (clamped saturations). -/
+theorem deck_hyst_minimum (c : Cell K) (st : CellState K) (s : Sat K) (h : c.ow.enabled = true) :
+    (updateCell c st s).ow.c.mdc = min st.ow.c.mdc (1 - clamp01 s.so) ∧
+    (updateCell c st s).go.c.mdc = min st.go.c.mdc (1 - c.swl - clamp01 s.sg) ∧
+    (updateCell c st s).ow.k.mdc = min st.ow.k.mdc (1 - clamp01 s.so) ∧
+    (updateCell c st s).go.k.mdc = min st.go.k.mdc (1 - c.swl - clamp01 s.sg) :=
+  updateCell_mdc c st s h
+
+/-! ## Second round: hysteresis -/
+
+/-- The scanning curve is non-increasing in the wetting saturation … -/
+theorem scan_monotone (c : Curves K) (st : State K) (hI : ∀ a b, a ≤ b → c.krnI b ≤ c.krnI a)
+    {a b : K} (ha : st.mdc < a) (hab : a ≤ b) : krn c st b ≤ krn c st a :=
+  Hyst.scan_monotone c st hI ha hab
+
+/-- … and the hysteretic relperm is non-increasing on the whole axis when the scanning curve
+starts at or below the drainage value. -/
+theorem hyst_krn_antitone (c : Curves K) (st : State K)
+    (hD : ∀ a b, a ≤ b → c.krnD b ≤ c.krnD a) (hI : ∀ a b, a ≤ b → c.krnI b ≤ c.krnI a)
+    (hj : c.krnI (st.mdc + st.delta) ≤ c.krnD st.mdc) {a b : K} (hab : a ≤ b) : krn c st b ≤ krn c st a :=
+  krn_antitone c st hD hI hj hab
+
+/- Killough (krHysteresisModel 2 and 3), non-wetting phase.  Full shape of the claim: for every
+history the relperm follows the drainage curve until the first reversal, the scanning curve is
+continuous at the reversal point and ends at the trapped saturation of Land's formula — for the
+non-wetting AND (model 4) the wetting phase, with or without capillary-pressure hysteresis.
+Proved: the non-wetting phase; missing: model 4's wetting-phase curve, Pc hysteresis, WAG. -/
+
+theorem killough_mdc_min_partial (p : Killough.Static K) (tiny : K) (h : List K) (st : Killough.State K) :
+    (Killough.run p tiny st h).mdc = h.foldl min st.mdc :=
+  Killough.killough_mdc_min_partial p tiny h st
+
+theorem killough_drainage_until_reversal_partial (p : Killough.Static K) (tiny : K) (st : Killough.State K)
+    (h : List K) (sw : K) (hsw : sw ≤ st.mdc) (hall : ∀ s ∈ h, sw ≤ s) :
+    Killough.krn p (Killough.run p tiny st h) sw = p.krnD sw :=
+  Killough.killough_drainage_until_reversal_partial p tiny st h sw hsw hall
+
+/-- Endpoint continuity at the reversal point: needs the two curves to meet at the maximum
+non-wetting saturation (`krnI (1 − Snmaxd) = KrndMax`). -/
+theorem killough_scan_continuous_partial (p : Killough.Static K) (st : Killough.State K)
+    (hc : st.KrndHy = p.krnD st.mdc) (hd : (1 - st.mdc) - st.Sncrt ≠ 0) (hm : p.KrndMax ≠ 0)
+    (hmeet : p.krnI (1 - p.Snmaxd) = p.KrndMax) :
+    Killough.scan p st st.mdc = p.krnD st.mdc ∧ Killough.krn p st st.mdc = p.krnD st.mdc :=
+  (Killough.killough_scan_continuous_partial p st hc hd hm hmeet).2
+
+/-- The other end of the scanning curve: at `Sw = 1 − Sncrt` the imbibition curve is evaluated at
+its critical saturation. -/
+theorem killough_trapped_endpoint_partial (p : Killough.Static K) (st : Killough.State K) :
+    Killough.snorm p st (1 - st.Sncrt) = p.Sncri ∧
+    (p.krnI (1 - p.Sncri) = 0 → Killough.scan p st (1 - st.Sncrt) = 0) :=
+  ⟨(Killough.killough_trapped_endpoint_partial p st).1, (Killough.killough_trapped_endpoint_partial p st).2.2.1⟩
+
+/-- Land's trapped saturation lies between the drainage critical saturation and the historical
+maximum. -/
+theorem killough_land_bounds_partial (p : Killough.Static K) (tiny sn : K)
+    (h1 : p.Sncrd < sn) (h2 : sn ≤ p.Snmaxd) (h3 : 0 < p.Sncri - p.Sncrd + tiny)
+    (h4 : p.Sncri + tiny ≤ p.Snmaxd) (h5 : 0 ≤ p.modParam) :
+    p.Sncrd < Killough.land p tiny sn ∧ Killough.land p tiny sn ≤ sn :=
+  Killough.killough_land_bounds_partial p tiny sn h1 h2 h3 h4 h5
+
 /-! ## Non-vacuity -/
 
 example : plAsc ([2 / 10, 5 / 10, 1] : List ℚ) [0, 3 / 10, 1] (5 / 10) = 3 / 10 := by
@@ -162,5 +411,34 @@ example (c : Curves ℚ) : (run c (init c 2) [8 / 10, 5 / 10, 7 / 10]).mdc = 5 /
 example (sw : ℚ) : krn ⟨fun s => 1 - s, fun s => 1 - s, fun y => 1 - y⟩
     (run ⟨fun s => 1 - s, fun s => 1 - s, fun y => 1 - y⟩ (init ⟨fun s => 1 - s, fun s => 1 - s, fun y => 1 - y⟩ 2) [8 / 10, 5 / 10, 7 / 10]) sw = 1 - sw :=
   carlson_identity (fun s => 1 - s) (fun y => 1 - y) 2 _ (by intro s _; ring) sw
+
+/-! ### Non-vacuity, second round (further instances beside the lemmas in Proofs/Satfunc3) -/
+
+/-- SWOF-like column `krw = [0, 0, 0.2, 0.7]` on `Sw = [0.2, 0.3, 0.6, 1]`: SWCR = 0.3 -/
+example : critInc ([2 / 10, 3 / 10, 6 / 10, 1] : List ℚ) [0, 0, 2 / 10, 7 / 10] 0 = 3 / 10 := by
+  decide +kernel
+/-- `krow = [0.9, 0.4, 0, 0]`: first sample with krow ≤ 0 is `Sw = 0.6`, SOWCR = 0.4 -/
+example : critDec ([2 / 10, 3 / 10, 6 / 10, 1] : List ℚ) [9 / 10, 4 / 10, 0, 0] 0 = 6 / 10 := by
+  decide +kernel
+example : ∃ k, k < 3 ∧ critInc ([2 / 10, 3 / 10, 1] : List ℚ) [0, 0, 7 / 10] 0 = nth [2 / 10, 3 / 10, 1] k ∧
+    nth ([0, 0, 7 / 10] : List ℚ) k ≤ 0 ∧ (∀ i, i ≤ k → nth ([0, 0, 7 / 10] : List ℚ) i ≤ 0) ∧
+    (∀ j, k < j → j < 3 → 0 < nth ([0, 0, 7 / 10] : List ℚ) j) :=
+  critical_increasing (sat := ([2 / 10, 3 / 10, 1] : List ℚ)) (kr := [0, 0, 7 / 10]) 0
+    (monoInc_three (by norm_num) (by norm_num)) (by simp) (by norm_num [nth])
+/-- the same oil curve as an SOF3 column: scanning upwards gives `1 − 0.6` -/
+example : critInc (([2 / 10, 3 / 10, 6 / 10, 1] : List ℚ).map (fun s => 1 - s)).reverse ([9 / 10, 4 / 10, 0, 0] : List ℚ).reverse 0 = 1 - 6 / 10 := by
+  decide +kernel
+/-- three-phase oil relperm: `Swco = 0.2`, `Sw = 0.5`, `Sg = 0.1` with constant two-phase values 0.3 and 0.6 -/
+example : (3 / 10 : ℚ) ≤ defaultKrn ⟨1 / 100000, 2⟩ (2 / 10) (fun _ => 3 / 10) (fun _ => 6 / 10) (5 / 10) (1 / 10) ∧
+    defaultKrn (⟨1 / 100000, 2⟩ : Consts ℚ) (2 / 10) (fun _ => 3 / 10) (fun _ => 6 / 10) (5 / 10) (1 / 10) ≤ 6 / 10 := by
+  have h := threephase_oil_range (⟨1 / 100000, 2⟩ : Consts ℚ) (by norm_num) rfl (2 / 10) (fun _ => 3 / 10) (fun _ => 6 / 10) (5 / 10) (1 / 10) (by norm_num)
+  beta_reduce at h
+  rw [min_eq_left (by norm_num : (3 / 10 : ℚ) ≤ 6 / 10), max_eq_right (by norm_num : (3 / 10 : ℚ) ≤ 6 / 10)] at h
+  exact h
+/-- a descending gas-oil curve that `finalize()` leaves descending (first saturation 0.8 ≤ last value 0.9) -/
+example (x : ℚ) : plEval (finalizeCurve ([8 / 10, 4 / 10, 0] : List ℚ) [0, 3 / 10, 9 / 10]).1 (finalizeCurve ([8 / 10, 4 / 10, 0] : List ℚ) [0, 3 / 10, 9 / 10]).2 x
+    = plEval [8 / 10, 4 / 10, 0] [0, 3 / 10, 9 / 10] x :=
+  finalize_invariant (xs := ([8 / 10, 4 / 10, 0] : List ℚ)) (ys := [0, 3 / 10, 9 / 10])
+    (Or.inr (strictDec_three (by norm_num) (by norm_num))) (by simp) rfl x
 
 end OpmVerif.Props.C15
